@@ -179,12 +179,18 @@ def r19_3(ctx):
         fi = model.func(path, name)
         rep.analysed(fi)
         idx = {}
+        # the solver constructor is whatever name the result of methods.select(...) is bound to
+        ctor_name = None
+        for s in fi.node.body:
+            if isinstance(s, ast.Assign) and isinstance(s.value, ast.Call) and astq.call_name(s.value).endswith("methods.select") \
+                    and len(s.targets) == 1 and isinstance(s.targets[0], ast.Name):
+                ctor_name = s.targets[0].id
         for i, s in enumerate(fi.node.body):
             for c in [n for n in ast.walk(s) if isinstance(n, ast.Call)]:
                 nm = astq.call_name(c)
                 for key, pat in (("check", "check_contract"), ("nograd", "assert_no_grad"), ("select", "methods.select"),
-                                 ("ctor", "solver_fn"), ("integrate", "." + integ)):
-                    if nm.endswith(pat) and key not in idx:
+                                 ("ctor", ctor_name), ("integrate", "." + integ)):
+                    if pat is not None and nm.endswith(pat) and key not in idx:
                         idx[key] = (i, isinstance(s, (ast.If, ast.For, ast.While, ast.Try)))
         missing = [k for k in ("check", "nograd", "select", "ctor", "integrate") if k not in idx]
         construct = f"{fi.key}::R19.3::order"
@@ -231,34 +237,9 @@ def r19_4(ctx):
     rep.analysed(cc)
     sites = _raise_sites(cc)
 
-    # (the per-class guards themselves are decided semantically by R19.7; here only the bookkeeping they rely on)
-    # sizes are collected from every relevant shape
-    appends = {}
-    for f in [cc] + list(cc.nested.values()):
-        for c in astq.calls(f):
-            if isinstance(c.func, ast.Attribute) and c.func.attr == "append" and c.args:
-                appends.setdefault(astq.dotted(c.func.value), []).append(ast.unparse(c.args[0]))
-    need = {"batch_sizes": ["y0.size(0)", "bm.shape[0]", "shape[0]"], "state_sizes": ["y0.size(1)", "shape[1]"],
-            "noise_sizes": ["bm.shape[1]", "shape[1]", "shape[2]"]}
-    for lst, items in need.items():
-        miss = [i for i in items if i not in appends.get(lst, [])]
-        rep.check(not miss, "R19.4", astq.loc(cc), f"{cc.key}::R19.4::collect::{lst}",
-                  f"`{lst}` no longer collects {miss}: sizes taken from there are not cross-checked", "all sources collected")
-    # has_f / has_g are set by the right methods only
-    flags = {"has_f": set(), "has_g": set()}
-    for n in own_nodes(cc.node):
-        if isinstance(n, ast.Assign) and isinstance(n.targets[0], ast.Name) and n.targets[0].id in flags \
-                and isinstance(n.value, ast.Constant) and n.value.value is True:
-            for t, p in [(ast.unparse(c), pl) for c, pl, _ in astq.path_conditions(cc, n)]:
-                if t.startswith("hasattr(sde, ") and p:
-                    flags[n.targets[0].id].add(t[len("hasattr(sde, "):-1].strip("'\""))
-    rep.check(flags["has_f"] == {"f", "f_and_g", "f_and_g_prod"}, "R19.4", astq.loc(cc), f"{cc.key}::R19.4::has_f-sources",
-              f"has_f is set by {sorted(flags['has_f'])}; the drift can only come from f, f_and_g, f_and_g_prod",
-              "has_f <- f | f_and_g | f_and_g_prod")
-    rep.check(flags["has_g"] == {"g", "f_and_g", "g_prod", "f_and_g_prod"}, "R19.4", astq.loc(cc),
-              f"{cc.key}::R19.4::has_g-sources",
-              f"has_g is set by {sorted(flags['has_g'])}; the diffusion can only come from g, f_and_g, g_prod, f_and_g_prod",
-              "has_g <- g | f_and_g | g_prod | f_and_g_prod")
+    # the per-class guards, the size bookkeeping (which shapes are cross-checked) and the drift / diffusion presence
+    # flags are decided semantically, on shape-only tensors, by R19.7 -- nothing here depends on how check_contract
+    # names its locals
     # is_strictly_increasing: evaluated on small concrete sequences
     isi = model.func(MISC, "is_strictly_increasing")
     rep.analysed(isi)
@@ -289,7 +270,7 @@ def r19_4(ctx):
     ok = len(raises) == 1 and any("requires_grad" in ast.unparse(c) and p for c, p, _ in astq.path_conditions(ang, raises[0]))
     rep.check(ok, "R19.4", astq.loc(ang), f"{ang.key}::R19.4::raises-on-grad",
               "assert_no_grad does not raise exactly when a tensor argument requires grad", "raises when requires_grad")
-    ctx.floor("R19.4", 8)
+    ctx.floor("R19.4", 4)
 
 
 class _CCHooks(solvers.QuietHooks):
@@ -323,7 +304,19 @@ def default_levy(model, method):
     it = Interp(model, hooks)
     ts = Obj("ts", getitem_hook=lambda i, o, idx, n, f: nf.sym(f"ts[{idx}]", True))
     y0 = Obj("y0", attrs={"dtype": "dtype", "device": "device"})
-    env = {"bm": None, "method": method, "ts": ts, "y0": y0, "batch_sizes": [Fraction(2)], "noise_sizes": [Fraction(3)]}
+    env = {"bm": None, "method": method, "ts": ts, "y0": y0}
+    # the size lists collected earlier in check_contract, whatever they are called: every local of check_contract read
+    # (and not first written) inside the block is a list of sizes here
+    written = set()
+    m = cc.module
+    mod_names = set(m.imports) | set(m.classes) | set(m.functions) | set(m.assigns) | set(dir(__builtins__) if not isinstance(__builtins__, dict) else __builtins__)
+    for n in ast.walk(node):
+        if isinstance(n, ast.Name) and isinstance(n.ctx, ast.Store):
+            written.add(n.id)
+    for n in ast.walk(node):
+        if isinstance(n, ast.Name) and isinstance(n.ctx, ast.Load) and n.id not in env and n.id not in written \
+                and n.id not in cc.params and n.id not in mod_names:
+            env[n.id] = [Fraction(2), Fraction(3)]
     it.exec_stmt(node, env, cc)
     if len(hooks.bm_kwargs) != 1:
         raise AnalysisError("`if bm is None:` does not construct exactly one BrownianInterval", where=astq.loc(cc, node))
@@ -401,18 +394,21 @@ def r19_5(ctx):
 
 
 def adjoint_noise_map(model, dom):
-    """forward noise type -> adjoint noise type, from the dict in AdjointSDE.__init__."""
-    init = model.func(ADJOINT_SDE, "AdjointSDE.__init__")
-    asg = [n for n in own_nodes(init.node) if isinstance(n, ast.Assign) and isinstance(n.targets[0], ast.Name)
-           and n.targets[0].id == "noise_type"]
-    if len(asg) != 1:
-        raise AnalysisError("AdjointSDE.__init__ no longer assigns `noise_type` once", where=astq.loc(init))
+    """forward noise type -> adjoint noise type: AdjointSDE(forward) is constructed abstractly for each forward noise
+    type and the `noise_type` its base-class constructor stores is read back."""
+    cls = model.cls(ADJOINT_SDE, "AdjointSDE")
     out = {}
     for nt in dom.noise_types.values():
         it = Interp(model, solvers.QuietHooks())
-        env = {"forward_sde": Obj("fwd", attrs={"noise_type": nt})}
-        it.exec_stmt(asg[0], env, init)
-        out[nt] = env["noise_type"]
+        fwd = Obj("fwd", attrs={"noise_type": nt, "sde_type": dom.sde_types.get("stratonovich", "stratonovich")})
+        try:
+            obj = it.instantiate(cls, [fwd, [], []], {})
+        except SimRaise as e:
+            raise AnalysisError(f"AdjointSDE(forward sde with {nt} noise) raises {e.exc_name} at construction",
+                                where=astq.loc(cls.methods["__init__"]))
+        if "noise_type" not in obj.attrs:
+            raise AnalysisError("AdjointSDE.__init__ no longer stores a noise_type", where=astq.loc(cls.methods["__init__"]))
+        out[nt] = obj.attrs["noise_type"]
     return out
 
 
@@ -669,6 +665,13 @@ def r19_7(ctx):
         ("diagonal diffusion of rank 3", dict(sde=make_user_sde(g_shape=(4, 3, 3)))),
         ("general diffusion of rank 2", dict(sde=make_user_sde("general", g_shape=(4, 3)))),
         ("diffusion state size differs", dict(sde=make_user_sde("general", g_shape=(4, 2, 3)))),
+        ("diffusion batch size differs", dict(sde=make_user_sde("general", g_shape=(5, 3, 3)))),
+        ("diagonal diffusion batch size differs", dict(sde=make_user_sde(g_shape=(5, 3)))),
+        ("diagonal diffusion state size differs", dict(sde=make_user_sde(g_shape=(4, 2)), m=2)),
+        ("f_and_g drift state size differs", dict(sde=make_user_sde("general", methods=("f_and_g",), f_shape=(4, 2)))),
+        ("diffusion only through g_prod, no drift", dict(sde=make_user_sde("general", methods=("g_prod",)))),
+        ("drift only through f_and_g_prod is fine but diffusion-vector product has the wrong batch size",
+         dict(sde=make_user_sde("general", methods=("f_and_g_prod",), f_shape=(5, 3)))),
         ("diffusion noise size differs from bm", dict(sde=make_user_sde("general", g_shape=(4, 3, 2)))),
         ("diagonal noise size differs from bm", dict(m=2)),
         ("scalar noise with two channels", dict(sde=make_user_sde("scalar", g_shape=(4, 3, 2)), m=2)),
